@@ -1169,8 +1169,17 @@ def check_c09(prog, pdesc, rs, r, res, ledger, case, handles):
                         M.note_nontrivial('C09', ('neg', s.name, tf, repr(dests), repr(pdesc)[:1500]))
                     continue
                 if abs(exp) <= noise:
+                    # a timeframe whose steps only move material *within* the destination set (transfers between its members,
+                    # removals whose discard is counted) changes nothing, exactly: the answer is 0, never "a net decrease"
+                    closed = b > a and all(rs[k]['op'] in ('transfer', 'remove') and set(touched(rs[k])) <= set(dn) for k in range(a, b))
+                    if closed:
+                        M.bucket('C09/closed_system_stage')
                     if gexc is not None and not isinstance(gexc, ValueError):
                         M.violate(['C09'], 'LEDGER', f'C09:query_raised:{type(gexc).__name__}', dict(detail, exc=repr(gexc)[:200]))
+                    elif gexc is not None and closed:
+                        has_rm = any(rs[k]['op'] == 'remove' for k in range(a, b))
+                        M.violate(['C09', 'C18'] + (['C17'] if has_rm else []), 'LEDGER', 'C09:net_change_of_zero_refused_as_a_decrease' + (':remove' if has_rm else ''),
+                                  dict(detail, exc=repr(gexc)[:200]))
                     elif gexc is None:
                         tolz = abs(R.convert(s, noise, 'U' if R.is_enzyme(s) else cf.mol_unit, unit)) + 0.5 * 10.0 ** (-cf.precision(unit)) * 1.000001
                         if abs(got) > tolz:
